@@ -25,7 +25,7 @@ func init() {
 	c := eng.Register(&eng.Check{
 		ID:          "C20",
 		Title:       "A runner behaves like a plain map of data plus a separate key-value store",
-		Rule:        "operation menu of 52 (SetThis with nil / fresh maps / the same map again, SetThisValue, Resolve of formulas that read and assign locals and fields, that fail in three different ways, that read keys beginning with underscores, that re-bind a local to an equal number written differently and read its digits back, that build a list from the data and share it between locals, Set, Get); one operation repeated 25 000 (quick) / 120 000 (thorough) times after four prefixes, followed by every read: every history up to depth d is replayed on a fresh real runner in lock-step with a plain-map reference model (no state merging); then breadth-first to depth 5 (quick) / 7 (thorough) with merging on the canonical observed state, where a state reached a second way must answer every probe like the first; after every step all caller-visible maps must equal the model's; distinct = distinct canonical states",
+		Rule:        "operation menu of 55 (SetThis with nil / fresh maps / the same map again, SetThisValue, Resolve of formulas that read and assign locals and fields, that fail in three different ways, that read keys beginning with underscores, that re-bind a local to an equal number written differently and read its digits back, that build a list from the data and share it between locals, that bind a local and then fail, SetThis with the map `this` evaluated to earlier, Set, Get); one operation repeated 25 000 (quick) / 120 000 (thorough) times after four prefixes, followed by every read: every history up to depth d is replayed on a fresh real runner in lock-step with a plain-map reference model (no state merging); then breadth-first to depth 5 (quick) / 7 (thorough) with merging on the canonical observed state, where a state reached a second way must answer every probe like the first; after every step all caller-visible maps must equal the model's; distinct = distinct canonical states",
 		TrustedBase: []string{"plain-map model of the runner in checks/c20.go"},
 		Assumptions: []string{"merging drops caller maps the runner no longer references; leaks into them are covered by the unmerged exploration"},
 		Run:         runC20,
@@ -85,6 +85,7 @@ var c20OpNames = []string{
 	"Resolve($a = x ? 5 : 6)",
 	"Resolve($a = 1.0, '' + $a)", "Resolve($a = 1, '' + $a)", "Resolve($a = 2.50, toString($a))", "Resolve($a = 2.5, toString($a))",
 	"Resolve($e = [x, 2])", "Resolve($f = $e)", "Resolve([$e, $f])",
+	"SetThis(the map `this` evaluated to last)", "Resolve($a = 3, regexp('a','(')) fails", "Resolve($a = 5, nope()) fails",
 }
 
 var c20Counting = strings.Repeat("$a = ($a ?? 0) + 1, ", 40) + "$a"
@@ -102,7 +103,7 @@ var c20Formulas = map[int]string{9: "x", 10: "$a", 11: "$a = x", 12: "$a = 2", 1
 	29: "regexp('a','(')", 30: c20DeepChain, 31: "x(1)", 32: "__t", 35: "[__t, this.___u, ___u, this.__t]", 36: "$e = []", 37: "[$e, $a]",
 	39: "[this.max, this.x, max(1, 2), Max, True, Len, X]", 40: "x ? $a = 5 : null, $a", 41: "(x ? null : ($a = 6)), $a",
 	42: "[$a === 9, $a === 2, $a === 1, x === 2, x === 1]", 43: c20Counting, 44: "$a = x ? 5 : 6",
-	45: "$a = 1.0, '' + $a", 46: "$a = 1, '' + $a", 47: "$a = 2.50, toString($a)", 48: "$a = 2.5, toString($a)", 49: "$e = [x, 2]", 50: "$f = $e", 51: "[$e, $f]"}
+	45: "$a = 1.0, '' + $a", 46: "$a = 1, '' + $a", 47: "$a = 2.50, toString($a)", 48: "$a = 2.5, toString($a)", 49: "$e = [x, 2]", 50: "$f = $e", 51: "[$e, $f]", 53: "$a = 3, regexp('a','(')", 54: "$a = 5, nope()"}
 
 // exact values behind the canonical strings of the model (numbers only)
 var c20Decs = map[string]ref.Dec{}
@@ -130,6 +131,7 @@ type c20World struct {
 	r    *formula.Runner
 	maps []map[string]interface{} // caller maps, in creation order
 	last int                      // index of the last map passed to SetThis, -1 none
+	kept int                      // index of the map `this` last evaluated to, -1 none
 	// model
 	cur   int // -1 unset, -2 the runner's own map, >=0 caller map index
 	own   map[string]string
@@ -138,7 +140,7 @@ type c20World struct {
 }
 
 func newWorld() *c20World {
-	return &c20World{r: formula.NewRunner(), last: -1, cur: -1, aux: map[string]string{}}
+	return &c20World{r: formula.NewRunner(), last: -1, kept: -1, cur: -1, aux: map[string]string{}}
 }
 
 func (w *c20World) curMap() map[string]string {
@@ -244,6 +246,29 @@ func (w *c20World) apply(op int) *eng.Fail {
 		if o.err == nil || o.val != nil {
 			return eng.F("C20/expected-error", "%s = %s, expected an error", name, show(o.val))
 		}
+	case op == 52:
+		// the host kept what `this` evaluated to and hands it back
+		if w.kept < 0 {
+			fresh(map[string]interface{}{})
+		} else {
+			w.r.SetThis(w.maps[w.kept])
+			w.cur, w.last = w.kept, w.kept
+		}
+	case op == 53, op == 54:
+		// the binding happens, then the evaluation fails (an ordinary error, a recovered panic): the error is
+		// reported and the local stays bound
+		p, err := cachedParse(c20Formulas[op])
+		if err != nil {
+			return eng.F("C20/parse", "%s: %v", name, err)
+		}
+		o := safeResolve(w.r, bg, p.Expression)
+		if o.panicked {
+			return eng.F("C20/panic", "%s: %s", name, o.panicMsg)
+		}
+		if o.err == nil || o.val != nil {
+			return eng.F("C20/expected-error", "%s = %s, expected an error", name, show(o.val))
+		}
+		w.ensure()["$a"] = map[int]string{53: "n3", 54: "n5"}[op]
 	case op == 33:
 		w.r.SetThisValue("__t", 3.0)
 		w.ensure()["__t"] = canonImpl(3.0)
@@ -304,10 +329,17 @@ func (w *c20World) apply(op int) *eng.Fail {
 				if canonMap(got) != canonModel(w.own) {
 					return eng.F("C20/this", "%s: `this` is {%s}, model {%s}", name, canonMap(got), canonModel(w.own))
 				}
+				// the host has seen the runner's own map now: from here on it is a caller-visible map like
+				// the others (it must keep equal to its model whatever happens to the runner later)
+				w.maps = append(w.maps, got)
+				w.mmaps = append(w.mmaps, w.own)
+				w.cur = len(w.maps) - 1
+				w.kept = w.cur
 			default:
 				if got == nil || reflect.ValueOf(got).Pointer() != reflect.ValueOf(w.maps[w.cur]).Pointer() {
 					return eng.F("C20/this", "%s: `this` is not the caller's current map #%d", name, w.cur)
 				}
+				w.kept = w.cur
 			}
 			want = ""
 		case 22:
@@ -491,7 +523,16 @@ func (w *c20World) key() string {
 			last = "=cur"
 		}
 	}
-	return cur + " last" + last + " aux{" + canonModel(w.aux) + "}"
+	kept := "none"
+	if w.kept >= 0 {
+		kept = "{" + canonModel(w.mmaps[w.kept]) + "}"
+		if w.kept == w.cur {
+			kept = "=cur"
+		} else if w.kept == w.last {
+			kept = "=last"
+		}
+	}
+	return cur + " last" + last + " kept" + kept + " aux{" + canonModel(w.aux) + "}"
 }
 
 func replayHist(ops []int, probe bool) (*c20World, *eng.Fail) {
